@@ -111,7 +111,7 @@ func max0(i int) int {
 
 // ---- (a) decision enumeration ----
 
-type revCfg struct {
+type RevCfg struct {
 	Lifecycle string `json:"lifecycle"`
 	PausedOK  bool   `json:"pausedCondition"`
 	Available bool   `json:"available"`
@@ -119,12 +119,16 @@ type revCfg struct {
 	Control   string `json:"control"` // reported | unreported | none
 	// Terminating: the revision was deleted earlier (pruned) and its teardown has not finished
 	Terminating bool `json:"terminating,omitempty"`
+	// PausedByParent: the revision carries the paused-by-parent mark (used by C09)
+	PausedByParent bool `json:"pausedByParent,omitempty"`
 }
 
-type chainCase struct {
-	Revs    []revCfg `json:"revisions"`
+type ChainCase struct {
+	Revs    []RevCfg `json:"revisions"`
 	Limit   int      `json:"limit"` // -1 = nil
 	Matches bool     `json:"newestMatchesTemplate"`
+	// ODPaused: the ObjectDeployment itself is paused (used by C09)
+	ODPaused bool `json:"deploymentPaused,omitempty"`
 }
 
 var (
@@ -133,14 +137,14 @@ var (
 	controls   = []string{"reported", "unreported", "none"}
 )
 
-func allRevCfgs(objs []string, ctrls []string) []revCfg {
-	var out []revCfg
+func allRevCfgs(objs []string, ctrls []string) []RevCfg {
+	var out []RevCfg
 	for _, l := range lifecycles {
 		for _, p := range []bool{false, true} {
 			for _, a := range []bool{false, true} {
 				for _, o := range objs {
 					for _, c := range ctrls {
-						out = append(out, revCfg{Lifecycle: l, PausedOK: p, Available: a, Objects: o, Control: c})
+						out = append(out, RevCfg{Lifecycle: l, PausedOK: p, Available: a, Objects: o, Control: c})
 					}
 				}
 			}
@@ -149,7 +153,7 @@ func allRevCfgs(objs []string, ctrls []string) []revCfg {
 	return out
 }
 
-func buildChain(cc chainCase) *world.World {
+func BuildChain(cc ChainCase) *world.World {
 	w := osw.NewWorld()
 	var lim *int32
 	if cc.Limit >= 0 {
@@ -165,7 +169,9 @@ func buildChain(cc chainCase) *world.World {
 		tx = 99
 	}
 	tmpl := world.TemplateSpec(osw.PhaseSpecs(osw.OnePhase(tnames...), tx), nil)
-	w.MustCreate(osw.NewOD("d", tmpl, lim))
+	od := osw.NewOD("d", tmpl, lim)
+	od.Spec.Paused = cc.ODPaused
+	w.MustCreate(od)
 	// learn the template hash from a probe pass
 	probe := w.Clone()
 	probe.Reconcile(world.CtrlObjectDeployment, osw.NN("d"), nil)
@@ -185,6 +191,9 @@ func buildChain(cc chainCase) *world.World {
 			os.Annotations["package-operator.run/hash"] = hash
 		}
 		os.Spec.LifecycleState = corev1alpha1.ObjectSetLifecycleState(rc.Lifecycle)
+		if rc.PausedByParent {
+			os.Annotations["package-operator.run/paused-by-parent"] = "true"
+		}
 		os.OwnerReferences = []metav1.OwnerReference{{APIVersion: "package-operator.run/v1alpha1", Kind: "ObjectDeployment", Name: "d", UID: typesUID(odID.UID), Controller: &t}}
 		os.Finalizers = []string{"package-operator.run/cached"}
 		w.MustCreate(os)
@@ -251,8 +260,8 @@ func buildChain(cc chainCase) *world.World {
 	return w
 }
 
-func judgeChain(cc chainCase) ([]world.Finding, string, []string) {
-	w := buildChain(cc)
+func judgeChain(cc ChainCase) ([]world.Finding, string, []string) {
+	w := BuildChain(cc)
 	before := w.S.Clone()
 	pass := w.Reconcile(world.CtrlObjectDeployment, osw.NN("d"), nil)
 	if pass.Panic != "" {
@@ -276,8 +285,8 @@ func judgeChain(cc chainCase) ([]world.Finding, string, []string) {
 	return f, strings.Join(acts, ","), pass.Trace()
 }
 
-func enumerate(quick bool) []chainCase {
-	var out []chainCase
+func enumerate(quick bool) []ChainCase {
+	var out []ChainCase
 	full := allRevCfgs(objSets, controls)
 	limits := []int{-1, 0, 1, 2}
 	for _, r1 := range full {
@@ -287,13 +296,13 @@ func enumerate(quick bool) []chainCase {
 					if !m && l > 0 {
 						continue
 					}
-					out = append(out, chainCase{Revs: []revCfg{r1, r2}, Limit: l, Matches: m})
+					out = append(out, ChainCase{Revs: []RevCfg{r1, r2}, Limit: l, Matches: m})
 				}
 			}
 		}
 	}
 	// three revisions
-	var a3, b3, c3 []revCfg
+	var a3, b3, c3 []RevCfg
 	if quick {
 		two := []string{"reported", "none"}
 		a3, b3, c3 = allRevCfgs([]string{"a"}, two), allRevCfgs([]string{"ab"}, two), allRevCfgs([]string{"b"}, two)
@@ -308,7 +317,7 @@ func enumerate(quick bool) []chainCase {
 		for _, r2 := range b3 {
 			for _, r3 := range c3 {
 				for _, l := range l3 {
-					out = append(out, chainCase{Revs: []revCfg{r1, r2, r3}, Limit: l, Matches: true})
+					out = append(out, ChainCase{Revs: []RevCfg{r1, r2, r3}, Limit: l, Matches: true})
 				}
 			}
 		}
@@ -316,11 +325,11 @@ func enumerate(quick bool) []chainCase {
 	// pruning chains: 3 and 4 revisions whose older members are paused or archived, available or
 	// not, and possibly still terminating from an earlier pruning; every revisionHistoryLimit
 	for _, n := range []int{3, 4} {
-		var opts []revCfg
+		var opts []RevCfg
 		for _, l := range []string{"Paused", "Archived"} {
 			for _, a := range []bool{false, true} {
 				for _, t := range []bool{false, true} {
-					opts = append(opts, revCfg{Lifecycle: l, PausedOK: true, Available: a, Objects: "a", Control: "none", Terminating: t})
+					opts = append(opts, RevCfg{Lifecycle: l, PausedOK: true, Available: a, Objects: "a", Control: "none", Terminating: t})
 				}
 			}
 		}
@@ -328,11 +337,11 @@ func enumerate(quick bool) []chainCase {
 		for {
 			for _, na := range []bool{false, true} {
 				for _, l := range []int{-1, 0, 1, 2} {
-					cc := chainCase{Limit: l, Matches: true}
+					cc := ChainCase{Limit: l, Matches: true}
 					for _, i := range idx {
 						cc.Revs = append(cc.Revs, opts[i])
 					}
-					cc.Revs = append(cc.Revs, revCfg{Lifecycle: "Active", Available: na, Objects: "a", Control: "reported"})
+					cc.Revs = append(cc.Revs, RevCfg{Lifecycle: "Active", Available: na, Objects: "a", Control: "reported"})
 					out = append(out, cc)
 				}
 			}
@@ -383,7 +392,7 @@ func runTable(o checks.Opts) *report.Report {
 }
 
 func replayTable(v report.Violation) string {
-	var cc chainCase
+	var cc ChainCase
 	if err := checks.Decode(v.Params["case"], &cc); err != nil {
 		return err.Error()
 	}
